@@ -248,6 +248,14 @@ def o56(ctx):
                 what="flip_handedness without dimensions")
 
 
+def _pole_sampler(rng):
+    """tilt angles including the poles and the other multiples of 90 degrees (where in-plane angles combine), next to generic ones"""
+    return float(rng.choice([0.0, 180.0, -180.0, 360.0, 90.0, -90.0, float(rng.uniform(-180, 180)), float(rng.uniform(-180, 180))]))
+
+
+POLES = dict(ANGLES, theta=_pole_sampler)
+
+
 def o57(ctx):
     """the observer of the orientations: get_rotations() is the zxz rotation of the angles as they stand in the table now"""
     q = "cryomotl.Motl.get_rotations"
@@ -259,16 +267,57 @@ def o57(ctx):
         r = it.run(q, [] if tomo is None else [tomo], {}, self_obj=me)
         if not isinstance(r.ret, Rot):
             raise Unsupported(f"get_rotations does not return a rotation object ({type(r.ret).__name__})", fn)
-        v = tm.rot_equivalent(no_sel(r.ret.term), particle_R(), samplers=ANGLES, seed_tag=q + str(tomo is None))
+        v = tm.rot_equivalent(no_sel(r.ret.term), particle_R(), samplers=POLES, seed_tag=q + str(tomo is None))
         ctx.count(1, {"tomo_number": tomo is not None, "rotation": tm.show(r.ret.term)[:100], "equal": bool(v)})
         if not v:
             ctx.finding(q, "returned rotations", "get_rotations must return the zxz rotation of the particle's (phi, theta, psi) as stored in the "
                         "table at the time of the call", fn, m, witness=v.witness)
 
 
+def o58(ctx):
+    """the accessors other features build on: get_angles hands back the (phi, theta, psi) columns as they stand, in this order, for every
+    particle; fill stores what it is given, unchanged, into the columns the key names"""
+    q = "cryomotl.Motl.get_angles"
+    m, fn = ctx.prog.func(q)
+    ctx.touched(q, "cryomotl.Motl.fill")
+    for tomo in (None, P("tomo_number")):
+        it = Interp(ctx.prog, assume=assume_map({"tomo_number is None": tomo is None}))
+        me = motl_obj(ctx.prog)
+        r = it.run(q, [] if tomo is None else [tomo], {}, self_obj=me)
+        a = as_arr(r.ret) if not isinstance(r.ret, Arr) else r.ret
+        if a is None or len(a.cols) != 3:
+            raise Unsupported("get_angles does not return a three-column array", fn)
+        for k, c in enumerate(("phi", "theta", "psi")):
+            v = tm.equivalent(no_sel(a.cols[k]), sym(c), samplers=POLES, n=24, seed_tag=q + c)
+            ctx.count(1, {"tomo_number": tomo is not None, "column": c, "returned": tm.show(a.cols[k])[:80]} if k == 0 else None)
+            if not v:
+                ctx.finding(q, f"returned column {k}", f"get_angles must return the particle's {c} as stored (column {k} of (phi, theta, psi)), for every "
+                            f"value including theta = 0 and 180; it returns {tm.show(no_sel(a.cols[k]))[:100]}", fn, m, witness=v.witness)
+    q = "cryomotl.Motl.fill"
+    m, fn = ctx.prog.func(q)
+    it = Interp(ctx.prog)
+    me = motl_obj(ctx.prog)
+    S = me.attrs["df"].space
+    arr3 = lambda p_: Arr([sym(p_ + c) for c in "012"], 2, space=S)
+    it.run(q, [DictV({"coord": arr3("c"), "angles": arr3("a"), "shifts": arr3("s"), "score": Val(sym("sc"), space=S)})], {}, self_obj=me)
+    df = me.attrs["df"]
+    want = {"x": "c0", "y": "c1", "z": "c2", "phi": "a0", "theta": "a1", "psi": "a2", "shift_x": "s0", "shift_y": "s1", "shift_z": "s2", "score": "sc"}
+    exp = {c: sym(v_) for c, v_ in want.items()}
+    expect_cols(ctx, it, q, df, exp, unchanged=others(ctx.prog, tuple(want)), samplers=POLES,
+                what="fill (coord -> x,y,z; angles -> phi,theta,psi; shifts -> shift_x,y,z; a column name -> that column; values as given)")
+
+
+def accessors(ctx):
+    """the accessors of a particle list that other features read it through (shared with the properties built on them)"""
+    o51(ctx)
+    o57(ctx)
+    o58(ctx)
+
+
 def _obligations():
     return [
         Obligation("O5.8", "dimensions_load (flip_handedness): an N x 4 table comes back as given, one triplet is repeated per listed tomogram (shared with C09)", _c09.o99, floor=10),
+        Obligation("O5.9", "accessors: get_angles returns (phi, theta, psi) as stored; fill stores the given values unchanged into the named columns", o58, floor=10),
         Obligation("O5.7", "get_rotations observes the current table: zxz rotation of (phi, theta, psi)", o57, floor=2),
         Obligation("O5.1", "get_coordinates = (x,y,z) + (shift_x,shift_y,shift_z) in both branches", o51, floor=9),
         Obligation("O5.2", "update_coordinates: x' = round-half-up(x+shift), shift' = residual, x'+shift' invariant", o52, floor=9),
@@ -280,4 +329,4 @@ def _obligations():
 
 
 def obligations():
-    return _obligations() + [labels_obligation("C05"), selectors_obligation("C05"), effects_obligation("C05"), plumbing_obligation("C05"), overrides_obligation("C05"), options_obligation("C05")]
+    return _obligations() + [constructors_obligation(['cryomotl.Motl', 'cryomotl.EmMotl']), labels_obligation("C05"), selectors_obligation("C05"), effects_obligation("C05"), plumbing_obligation("C05"), overrides_obligation("C05"), options_obligation("C05")]
